@@ -294,3 +294,12 @@ def history(h):
         h.ensures(f"client_field_written_before_read[{attr}]", ok, why=f"first read {first_load}, first write {first_store}")
     # (3) a fresh model (and results handler) per run
     h.ensures("fresh_model_and_results_handler_per_run", "model" in stores and "results_handler" in stores)
+
+# "before or after other runs": a run must not modify the tables its caller passed in (the next run would see them changed) --
+# the frame condition of CombinedDataHandler.__init__ (contracts/C09.py)
+import contracts.C09 as _c09  # noqa: E402,F401
+from pyvc.api import UNITS as _UNITS  # noqa: E402
+
+for _u in list(_UNITS.get("C09", [])):
+    if _u["name"].startswith("init.") and not any(x["name"] == "inputs_not_modified." + _u["name"] for x in _UNITS.get("C12", [])):
+        _UNITS.setdefault("C12", []).append(dict(_u, prop="C12", name="inputs_not_modified." + _u["name"]))
